@@ -272,6 +272,12 @@ macro_rules! impl_select_zero_small {
                 // >= counts.get(block_idx).absolute.
                 block_idx += (local_rank - opt) / Self::BLOCK_BIT_SIZE;
 
+                // The upper block containing the rank ends where the bit
+                // vector ends, if it is the last one.
+                let upper_block_end = Ord::min(
+                    self.len().div_ceil(Self::BLOCK_BIT_SIZE),
+                    (upper_block_idx + 1) * (Self::SUPERBLOCK_BIT_SIZE / Self::BLOCK_BIT_SIZE),
+                );
                 let last_block_idx;
                 if inv_idx + 1 < inventory.len() {
                     let next_inv_upper_block_idx =
@@ -281,7 +287,7 @@ macro_rules! impl_select_zero_small {
                             + upper_block_idx * Self::SUPERBLOCK_BIT_SIZE;
                         next_inv_pos.div_ceil(Self::BLOCK_BIT_SIZE)
                     } else {
-                        (upper_block_idx + 1) * (Self::SUPERBLOCK_BIT_SIZE / Self::BLOCK_BIT_SIZE)
+                        upper_block_end
                     };
                 } else {
                     // TODO
@@ -289,7 +295,10 @@ macro_rules! impl_select_zero_small {
                     // with value given by the number of bits. Thus, we must
                     // handle the case in which inv_idx is the the last
                     // inventory entry as a special case.
-                    last_block_idx = self.len().div_ceil(Self::BLOCK_BIT_SIZE);
+                    // Further upper blocks might contain so few zeros that
+                    // they have no inventory entry: we clip the span to the
+                    // upper block containing the rank.
+                    last_block_idx = upper_block_end;
                 }
 
                 debug_assert!(block_idx < counts.len());
